@@ -218,6 +218,33 @@ def gen_font_cases(rng, tier):
     return cases
 
 
+def gen_rt_cases(rng, tier):
+    """Document::encode_text then Document::decode_text: the whole repertoire of each table in one string (rtall), and
+    random strings over the repertoire (Python code pages as the source of characters), pure or salted with characters
+    outside it, which must be dropped without disturbing the rest"""
+    cases = []
+    for e in ENCODINGS + [None, 'Foo', 'Identity-H']:
+        cases.append((L('rtall', font_dict(e)), {'kind': 'rtall', 'nontrivial': True}))
+    outside = [0x0, 0x9, 0xa, 0x7f, 0x80, 0x3b1, 0x416, 0x4e2d, 0xfeff, 0xfffd, 0xd7ff, 0xe000, 0xf8ff, 0x1f600, 0x10ffff, 0x2022,
+               0x20ac, 0xf730, 0xf6e2, 0x2044]
+    n = 400 if tier == 'quick' else 12000
+    for _ in range(n):
+        e = rng.choice(ENCODINGS + ['WinAnsiEncoding', 'StandardEncoding', None])
+        rep = sorted(set(ord(c) for c in shown_codes(e or 'StandardEncoding').values())) or list(range(0x20, 0x7f))
+        if e == 'MacExpertEncoding':
+            rep = list(range(0x20, 0x40)) + list(range(0xf6dc, 0xf800)) + [0x2044, 0x2013, 0x2014, 0xfb00, 0xfb01, 0xfb02, 0xfb03, 0xfb04]
+        salted = rng.random() < 0.4
+        s = []
+        for _c in range(rng.randint(0, 16)):
+            if salted and rng.random() < 0.3:
+                s.append(rng.choice(outside) if rng.random() < 0.6 else rng.randrange(0, 0x3000))
+            else:
+                s.append(rng.choice(rep))
+        s = [c for c in s if is_scalar(c)]
+        cases.append((L('rt', font_dict(e, rng), U(s)), {'kind': 'rt-' + str(e) + ('-salted' if salted else ''), 'nontrivial': len(s) > 0}))
+    return cases
+
+
 def render_expected(pieces):
     """the documented layout of shown text: TJ arrays end with a space, an integer adjustment below -100 is a space,
     ET ends the line"""
@@ -244,73 +271,105 @@ def gen_extract_cases(rng, tier):
         keys = list(codes)
         bs_ = bytes(rng.choice(keys) for _ in range(rng.randint(0, 14)))
         return bs_, ''.join(codes[b] for b in bs_)
-    for _ in range(n_shown):
+    def shown_page(style):
+        """one page showing text; the font selection follows `style`:
+             each       every text object starts with its own Tf (what most producers emit)
+             before     Tf once, before the first BT; no text object selects a font
+             first      Tf inside the first text object only; the later text objects reuse it
+             between    Tf between text objects (after ET, before the next BT), never inside
+             mixed      any of these at random, plus font switches in the middle of a text object
+           The selected font is graphics state: it stays selected across ET/BT until the next Tf.
+           Returns (fonts, ops, expected text)."""
+        nf = rng.randint(1, 3)
+        names = rng.sample(['F1', 'F2', 'Helv', 'T1_0', 'A', 'Z9'], nf)
+        encs = [rng.choice(shown_encs) for _ in names]
+        fonts = [L(xb(nm), font_dict(e, rng)) for nm, e in zip(names, encs)]
+        ops = []
+        sem = []      # what the operations mean for the reader: ('font',) | ('show', text) | ('end',)
+        state = {'codes': None}
+        def select():
+            k = rng.randrange(nf)
+            ops.append(L(xb('Tf'), N(names[k]), rng.choice([I(12), I(10), R('9.5')])))
+            sem.append(('font',))
+            state['codes'] = shown_codes(encs[k])
+        def show():
+            codes = state['codes']
+            if rng.random() < 0.6:
+                b, t = rand_shown(codes)
+                ops.append(L(xb('Tj'), rng.choice([S, H])(b)))
+                sem.append(('show', render_expected([('Tj', t)])))
+            else:
+                items = []
+                arr = []
+                for _i in range(rng.randint(0, 5)):
+                    r = rng.random()
+                    if r < 0.6:
+                        b, t = rand_shown(codes)
+                        arr.append(rng.choice([S, H])(b))
+                        items.append(t)
+                    elif r < 0.9:
+                        kk = rng.choice([-250, -101, -100, -99, -20, 0, 30, 400, -1000])
+                        arr.append(I(kk))
+                        items.append(kk)
+                    else:
+                        arr.append(R(rng.choice(['-250.5', '12.25', '-0.5'])))
+                        items.append(None)
+                ops.append(L(xb('TJ'), A(arr)))
+                sem.append(('show', render_expected([('TJ', items)])))
+        nblk = rng.randint(1, 4) if style != 'each' else rng.randint(1, 3)
+        if style in ('before', 'between') or (style == 'mixed' and rng.random() < 0.4):
+            if rng.random() < 0.3:
+                ops.append(L(xb('q')))
+            select()
+        for blk in range(nblk):
+            ops.append(L(xb('BT')))
+            if style == 'each' or (style == 'first' and blk == 0) or (style == 'mixed' and rng.random() < 0.4) \
+                    or state['codes'] is None:
+                if rng.random() < 0.2:
+                    ops.append(L(xb('Td'), I(rng.randint(-50, 50)), R('14.5')))   # Tf need not be the first operator
+                select()
+            for _s in range(rng.randint(1, 4) if style == 'each' or rng.random() < 0.85 else 0):
+                if rng.random() < 0.15:
+                    ops.append(L(xb('Td'), I(rng.randint(-50, 50)), R('14.5')))
+                if rng.random() < (0.15 if style == 'each' else 0.3 if style == 'mixed' else 0.0):
+                    select()
+                show()
+            ops.append(L(xb('ET')))
+            sem.append(('end',))
+            if blk + 1 < nblk and (style == 'between' or (style == 'mixed' and rng.random() < 0.25)):
+                if rng.random() < 0.3:
+                    ops.append(L(xb('cm'), I(1), I(0), I(0), I(1), I(rng.randint(0, 90)), I(0)))
+                select()
+        # layout rule: a line break at ET unless the text since the last font selection already ends with one
+        text = ''
+        cur = ''
+        for ev in sem:
+            if ev[0] == 'font':
+                text += cur
+                cur = ''
+            elif ev[0] == 'show':
+                cur += ev[1]
+            elif not cur.endswith('\n'):
+                cur += '\n'
+        text += cur
+        return fonts, ops, text
+    styles = ['each', 'before', 'first', 'between', 'mixed', 'mixed']
+    for j in range(n_shown):
         npages = rng.randint(1, 3)
         pages = []
         texts = []
+        used = []
         for _p in range(npages):
-            nf = rng.randint(1, 3)
-            names = rng.sample(['F1', 'F2', 'Helv', 'T1_0', 'A', 'Z9'], nf)
-            encs = [rng.choice(shown_encs) for _ in names]
-            fonts = [L(xb(nm), font_dict(e, rng)) for nm, e in zip(names, encs)]
-            ops = []
-            sem = []      # what the operations mean for the reader: ('font',) | ('show', text) | ('end',)
-            for _blk in range(rng.randint(1, 3)):
-                ops.append(L(xb('BT')))
-                k = rng.randrange(nf)
-                ops.append(L(xb('Tf'), N(names[k]), rng.choice([I(12), R('9.5')])))
-                sem.append(('font',))
-                codes = shown_codes(encs[k])
-                for _s in range(rng.randint(1, 4)):
-                    if rng.random() < 0.15:
-                        ops.append(L(xb('Td'), I(rng.randint(-50, 50)), R('14.5')))
-                    if rng.random() < 0.15:
-                        k = rng.randrange(nf)
-                        ops.append(L(xb('Tf'), N(names[k]), I(10)))
-                        sem.append(('font',))
-                        codes = shown_codes(encs[k])
-                    if rng.random() < 0.6:
-                        b, t = rand_shown(codes)
-                        ops.append(L(xb('Tj'), rng.choice([S, H])(b)))
-                        sem.append(('show', render_expected([('Tj', t)])))
-                    else:
-                        items = []
-                        arr = []
-                        for _i in range(rng.randint(0, 5)):
-                            r = rng.random()
-                            if r < 0.6:
-                                b, t = rand_shown(codes)
-                                arr.append(rng.choice([S, H])(b))
-                                items.append(t)
-                            elif r < 0.9:
-                                kk = rng.choice([-250, -101, -100, -99, -20, 0, 30, 400, -1000])
-                                arr.append(I(kk))
-                                items.append(kk)
-                            else:
-                                arr.append(R(rng.choice(['-250.5', '12.25', '-0.5'])))
-                                items.append(None)
-                        ops.append(L(xb('TJ'), A(arr)))
-                        sem.append(('show', render_expected([('TJ', items)])))
-                ops.append(L(xb('ET')))
-                sem.append(('end',))
-            # layout rule: a line break at ET unless the text since the last font selection already ends with one
-            text = ''
-            cur = ''
-            for ev in sem:
-                if ev[0] == 'font':
-                    text += cur
-                    cur = ''
-                elif ev[0] == 'show':
-                    cur += ev[1]
-                elif not cur.endswith('\n'):
-                    cur += '\n'
-            text += cur
+            style = styles[(j + _p) % len(styles)]
+            used.append(style)
+            fonts, ops, text = shown_page(style)
             pages.append(L('page', L('fonts', *fonts), L('ops', *ops)))
             texts.append(text)
         nums = [rng.randint(1, npages) for _ in range(rng.randint(1, 3))]
         expect = ''.join(texts[k - 1] for k in nums)
         cases.append((L('extract', L('pages', *pages), L('nums', *[str(k) for k in nums]), L('expect', U([ord(c) for c in expect]))),
-                      {'kind': 'extract-shown', 'nontrivial': len(expect.strip()) > 0}))
+                      {'kind': 'extract-shown-' + used[nums[0] - 1], 'nontrivial': len(expect.strip()) > 0}))
+    cases.sort(key=lambda c: len(c[0]))   # smallest first: the first failing case reported is the smallest found
     # arbitrary operation lists: the malformed stream of the extractor
     def rand_operand(depth=0):
         r = rng.random()
@@ -377,7 +436,7 @@ def gen_extract_cases(rng, tier):
 
 
 def gen_cases(rng, tier):
-    return gen_font_cases(rng, tier) + gen_text_cases(rng, tier) + gen_decode_cases(rng, tier) + gen_extract_cases(rng, tier)
+    return gen_font_cases(rng, tier) + gen_rt_cases(rng, tier) + gen_text_cases(rng, tier) + gen_decode_cases(rng, tier) + gen_extract_cases(rng, tier)
 
 
 SPEC = {
